@@ -110,14 +110,47 @@ func runR14_10(c *Ctx, r *R) {
 		key := fmt.Sprintf("%s/{%s}", fnKey(f), strings.Join(desc, ","))
 		// follow the control flow in this world
 		b := f.Blocks[0]
+		var prev *ssa.BasicBlock
 		outcome, why := "", ""
 		assigned := ""
+		// values merged at joins are followed along the path taken in this world (err = fmt.Errorf(...) in an arm,
+		// tested after the switch)
+		env := map[ssa.Value]ssa.Value{}
+		var val func(v ssa.Value) ssa.Value
+		val = func(v ssa.Value) ssa.Value {
+			if x, ok := env[v]; ok {
+				return x
+			}
+			if x, ok := v.(*ssa.ChangeInterface); ok {
+				return val(x.X)
+			}
+			return v
+		}
+		nilness := func(v ssa.Value) (isNil bool, known bool) {
+			v = val(v)
+			if isNilConst(v) {
+				return true, true
+			}
+			if knownNonNil(v) {
+				return false, true
+			}
+			return false, false
+		}
 		for steps := 0; steps < 200 && outcome == "" && why == ""; steps++ {
+			for _, ins := range b.Instrs {
+				if phi, ok := ins.(*ssa.Phi); ok && prev != nil {
+					for i, pb := range b.Preds {
+						if pb == prev {
+							env[phi] = val(phi.Edges[i])
+						}
+					}
+				}
+			}
 			for _, ins := range b.Instrs {
 				if st, ok := ins.(*ssa.Store); ok {
 					if fa, ok := st.Addr.(*ssa.FieldAddr); ok && fa.X == recv && fieldOf(fa).Name() == "Type" {
 						assigned = "?"
-						if k, isK := st.Val.(*ssa.Const); isK && k.Value != nil {
+						if k, isK := val(st.Val).(*ssa.Const); isK && k.Value != nil {
 							if n := typeName[k.Value.ExactString()]; n != "" {
 								assigned = n
 							}
@@ -125,28 +158,66 @@ func runR14_10(c *Ctx, r *R) {
 					}
 				}
 			}
+			prev = b
 			switch x := b.Instrs[len(b.Instrs)-1].(type) {
 			case *ssa.Return:
-				if len(x.Results) == 1 && isNilConst(x.Results[0]) {
+				if len(x.Results) != 1 {
+					why = "unexpected result arity"
+					break
+				}
+				isNil, known := nilness(x.Results[0])
+				switch {
+				case !known:
+					why = "the returned error is not decidable on this path: " + x.Results[0].String()
+				case isNil:
 					outcome = assigned
 					if outcome == "" {
 						outcome = "accepted without a type"
 					}
-				} else {
+				default:
 					outcome = "malformed"
 				}
 			case *ssa.If:
 				a, ok := atomOf(x.Cond)
 				if !ok {
+					// a test of a value built on this path: err == nil
+					cond, neg := x.Cond, false
+					for {
+						u, isNot := cond.(*ssa.UnOp)
+						if !isNot || u.Op != token.NOT {
+							break
+						}
+						cond, neg = u.X, !neg
+					}
+					if bo, isB := cond.(*ssa.BinOp); isB && (bo.Op == token.EQL || bo.Op == token.NEQ) {
+						xv, yv := bo.X, bo.Y
+						if isNilConst(xv) {
+							xv, yv = yv, xv
+						}
+						if isNilConst(yv) {
+							if isNil, known := nilness(xv); known {
+								t := isNil == (bo.Op == token.EQL)
+								if neg {
+									t = !t
+								}
+								if t {
+									b = b.Succs[0]
+								} else {
+									b = b.Succs[1]
+								}
+								break
+							}
+						}
+					}
 					why = "a branch of compileType tests something other than the four signature facts: " + x.Cond.String()
 					break
 				}
-				val, known := w[a.field]
+				v, known := w[a.field]
 				if !known {
 					why = "compileType branches on the field " + a.field + ", which is not one of the four signature facts"
 					break
 				}
-				if val == a.truth {
+				if v == a.truth {
 					b = b.Succs[0]
 				} else {
 					b = b.Succs[1]
